@@ -1058,8 +1058,8 @@ theorem plan_puts_eq (c : Cfg) :
 
 theorem plan_termTime (c : Cfg) : ∃ x y, (plan c).termTime = (match (plan c).phase with
     | .startFailed | .afterStart | .notStarted => 0
-    | .asyncInit | .running => x
-    | .initFailed | .evalFailed => y) := ⟨_, _, rfl⟩
+    | .running => x
+    | .asyncInit | .initFailed | .evalFailed => y) := ⟨_, _, rfl⟩
 
 theorem plan_timers_nil (c : Cfg) (h : (plan c).started = []) : (plan c).timers = [] := by
   obtain ⟨pass1, pass2, ph, hpt⟩ := plan_timers c
@@ -1148,7 +1148,7 @@ theorem runForever_spec (c : Cfg) (r : Result) (h : runForever c = some r) (hne 
         simp [rfInit, hb, hne, bind_apply, get_apply, pure_apply, raise_apply, tryExcept_apply, ite_apply',
           hrange, hsl, hsf, hph, sp.trace, sp.started, sp.timers, sp.endTime, hso, herr, hsto,
           plan_startEvs, plan_started, saveStep_eq, storageAtStop_eq, abortBy, rf_saveLoop, hputs, htt', hie, hst, hsas, hoa, hos, plan_timers_nil c hst',
-          Lifecycle.stopSblocks, awaitJobs, sortJobs, sortEnds, stopSyncAll]
+          Lifecycle.stopSblocks, runTasks, awaitJobs, sortJobs, sortEnds, stopSyncAll]
         exact ⟨_, _, ⟨rfl, rfl⟩, rfl, rfl, rfl, rfl, rfl, rfl, rfl, rfl, rfl⟩
       · simp [rfInit, hb, hne, bind_apply, get_apply, pure_apply, raise_apply, tryExcept_apply, ite_apply',
           hrange, hsl, hsf, hph, sp.trace, sp.started, sp.timers, sp.endTime, hso, herr, hsto,
@@ -1167,7 +1167,7 @@ theorem runForever_spec (c : Cfg) (r : Result) (h : runForever c = some r) (hne 
            | exact ⟨_, _, ⟨rfl, rfl⟩, rfl, rfl, rfl, rfl, by decide, rfl, rfl, rfl, rfl⟩)
     · -- … during the asynchronous initialisation
       have hputs : (plan c).puts = [] := by rw [plan_puts_eq, hph]; simp [putBlocksOf]
-      have htt' : (plan c).termTime = tx := by rw [htt, hph]
+      have htt' : (plan c).termTime = ty := by rw [htt, hph]
       have hsas : storageAtStop c.blocks (plan c) = storage0 c.blocks := by simp [storageAtStop, hph]
       have hab_or := fun (st : List Nat) => Bool.eq_false_or_eq_true
         (saveAllF c.storageFault c.blocks (consumePending (plan c)) (startLoop 0 c.blocks).2.1 st).2
@@ -1296,7 +1296,7 @@ structure IaState where
   jobs : Option (List Job) := none      -- what was handed to `_run_tasks("async init", …)`
 
 def initJobOf (bs : List Blk) (k : Nat) : Job :=
-  ⟨k, some (blk bs k).initDur, (blk bs k).initTimeout, !(blk bs k).fInitAsync⟩
+  ⟨k, some (blk bs k).initDur, (blk bs k).initTimeout, !(blk bs k).fInitAsync, (blk bs k).initCancelDur⟩
 
 @[reducible] def iaPrims (bs : List Blk) : TrL.InitAsyncPrims IaState TExc Nat Job where
   asyncBlocks := (List.range bs.length).filter fun k =>
@@ -1309,7 +1309,7 @@ def initJobOf (bs : List Blk) (k : Nat) : Job :=
 
 theorem initJobs_suffix (bs : List Blk) : ∀ (l : List Blk) (i : Nat), bs.drop i = l →
     ((l.zipIdx i).map (fun p => (p.2, p.1))).filterMap (fun (k, b) =>
-        if b.wantsInitAsync then some (⟨k, some b.initDur, b.initTimeout, !b.fInitAsync⟩ : Job) else none) =
+        if b.wantsInitAsync then some (⟨k, some b.initDur, b.initTimeout, !b.fInitAsync, b.initCancelDur⟩ : Job) else none) =
       ((List.range' i l.length).filter fun k => (blk bs k).wantsInitAsync).map (initJobOf bs) := by
   intro l
   induction l with
